@@ -722,6 +722,18 @@ class UnknownURI:
         self._uri = uri
         self._error = error
 
+    def __hash__(self):
+        return hash(self.to_string())
+
+    def __eq__(self, them):
+        if isinstance(them, UnknownURI):
+            return self.to_string() == them.to_string()
+        else:
+            return False
+
+    def __ne__(self, them):
+        return not (self == them)
+
     def to_string(self):
         return self._uri
 
